@@ -73,6 +73,11 @@ class Ace(AceBase):
             self._srcaddr = Address(**srcaddr)
         if dstaddr := kwargs.get("dstaddr") or {}:
             self._dstaddr = Address(**dstaddr)
+        for name in ("protocol", "srcport", "dstport", "option"):
+            if isinstance(data := kwargs.get(name), dict):
+                obj = getattr(self, f"_{name}")
+                obj.uuid = str(data.get("uuid") or obj.uuid)
+                obj.note = data.get("note", "")
         self.line = line
 
     # ========================== redefined ===========================
@@ -224,6 +229,8 @@ class Ace(AceBase):
             version=self.version,
             port_nr=self._port_nr,
             protocol_nr=self._protocol_nr,
+            uuid=self._protocol.uuid,
+            note=self._protocol.note,
         )
         kwargs_port = dict(
             platform=self._platform,
@@ -231,11 +238,17 @@ class Ace(AceBase):
             protocol=protocol_o.name,
             port_nr=self._port_nr,
         )
-        self._srcport = Port(ace_d["srcport"], **kwargs_port)
-        self._dstport = Port(ace_d["dstport"], **kwargs_port)
+        self._srcport = Port(ace_d["srcport"], uuid=self._srcport.uuid, note=self._srcport.note, **kwargs_port)
+        self._dstport = Port(ace_d["dstport"], uuid=self._dstport.uuid, note=self._dstport.note, **kwargs_port)
         protocol_o.has_port = bool(self._srcport.line or self._dstport.line)
         self._protocol = protocol_o
-        self._option = Option(ace_d["option"], platform=self._platform, version=self.version)
+        self._option = Option(
+            ace_d["option"],
+            platform=self._platform,
+            version=self.version,
+            uuid=self._option.uuid,
+            note=self._option.note,
+        )
 
     @property
     def option(self) -> Option:
